@@ -45,6 +45,24 @@ type RPC struct {
 	// Mangle may reorder the packs of a response (the service collects them in completion
 	// order, so any order is one the real server can produce).
 	Mangle func(resp *model.PushPullMessage)
+	// backend, if set, is a real server process the front forwards to instead of the in-process service
+	backend func() model.OrdaServiceClient
+}
+
+// SetBackend makes the front forward to a server process (nil: the in-process service).
+func (r *RPC) SetBackend(f func() model.OrdaServiceClient) {
+	r.mu.Lock()
+	r.backend = f
+	r.mu.Unlock()
+}
+
+func (r *RPC) be() model.OrdaServiceClient {
+	r.mu.Lock()
+	defer r.mu.Unlock()
+	if r.backend == nil {
+		return nil
+	}
+	return r.backend()
 }
 
 // SetTaps installs the request / response taps (nil clears them).
@@ -110,7 +128,13 @@ func (r *RPC) ProcessPushPull(ctx context.Context, in *model.PushPullMessage) (*
 	if onReq != nil {
 		onReq(proto.Clone(in).(*model.PushPullMessage))
 	}
-	out, err := r.b.Svc.ProcessPushPull(ctx, proto.Clone(in).(*model.PushPullMessage))
+	var out *model.PushPullMessage
+	var err error
+	if be := r.be(); be != nil {
+		out, err = be.ProcessPushPull(ctx, proto.Clone(in).(*model.PushPullMessage))
+	} else {
+		out, err = r.b.Svc.ProcessPushPull(ctx, proto.Clone(in).(*model.PushPullMessage))
+	}
 	if err == nil && out != nil && mangle != nil {
 		mangle(out)
 	}
@@ -134,7 +158,13 @@ func (r *RPC) ProcessPushPull(ctx context.Context, in *model.PushPullMessage) (*
 func (r *RPC) ProcessClient(ctx context.Context, in *model.ClientMessage) (*model.ClientMessage, error) {
 	atomic.AddInt64(&r.inflight, 1)
 	defer atomic.AddInt64(&r.inflight, -1)
-	out, err := r.b.Svc.ProcessClient(ctx, in)
+	var out *model.ClientMessage
+	var err error
+	if be := r.be(); be != nil {
+		out, err = be.ProcessClient(ctx, in)
+	} else {
+		out, err = r.b.Svc.ProcessClient(ctx, in)
+	}
 	r.record(RPCCall{Method: "ProcessClient", CUID: in.Cuid, Err: err != nil})
 	return out, err
 }
@@ -143,16 +173,25 @@ func (r *RPC) ProcessClient(ctx context.Context, in *model.ClientMessage) (*mode
 func (r *RPC) PatchDocument(ctx context.Context, in *model.PatchMessage) (*model.PatchMessage, error) {
 	atomic.AddInt64(&r.inflight, 1)
 	defer atomic.AddInt64(&r.inflight, -1)
+	if be := r.be(); be != nil {
+		return be.PatchDocument(ctx, in)
+	}
 	return r.b.Svc.PatchDocument(ctx, in)
 }
 
 // CreateCollection forwards to the service.
 func (r *RPC) CreateCollection(ctx context.Context, in *model.CollectionMessage) (*model.CollectionMessage, error) {
+	if be := r.be(); be != nil {
+		return be.CreateCollection(ctx, in)
+	}
 	return r.b.Svc.CreateCollection(ctx, in)
 }
 
 // ResetCollection forwards to the service.
 func (r *RPC) ResetCollection(ctx context.Context, in *model.CollectionMessage) (*model.CollectionMessage, error) {
+	if be := r.be(); be != nil {
+		return be.ResetCollection(ctx, in)
+	}
 	return r.b.Svc.ResetCollection(ctx, in)
 }
 
